@@ -5,9 +5,11 @@ import (
 	"fmt"
 	"sync"
 	"testing"
+	"time"
 
 	"verif/harness/cfggen"
 	"verif/harness/ev"
+	"verif/harness/model"
 
 	"pgregory.net/rapid"
 )
@@ -286,8 +288,81 @@ func TestC10(t *testing.T) {
 
 func TestC10Regress(t *testing.T) {
 	for _, s := range loadSaved(t, "C10") {
+		var probe struct {
+			Flow   string `json:"flow"`
+			Cancel int    `json:"cancel_after_ms"`
+			Right  bool   `json:"right_password"`
+		}
+		mustUnmarshal(t, s, &probe)
+		if probe.Flow != "" {
+			runC10Cancel(t, probe.Flow, probe.Cancel, probe.Right)
+			continue
+		}
 		var c c10Case
 		mustUnmarshal(t, s, &c)
 		runC10(t, c)
+	}
+}
+
+// TestC10EnumCancelDuringLogin: the server's context is cancelled while the password of a login is being
+// checked (a hash of work factor 12, a third of a second per check; cancellation 20, 60 and 150 ms after the
+// packet went in).  Whatever the shutdown does to the exchange, a wrong password is never answered PASS.
+func TestC10EnumCancelDuringLogin(t *testing.T) {
+	for _, flow := range []string{"pap", "ascii"} {
+		for _, delay := range []int{20, 60, 150} {
+			for _, right := range []bool{false, true} {
+				runC10Cancel(t, flow, delay, right)
+			}
+		}
+	}
+}
+
+func runC10Cancel(t failer, flow string, delay int, right bool) {
+	ev.Eval()
+	var w cfggen.World
+	w.Keychain = map[string]string{}
+	w.Cfg.Secrets = []cfggen.Secret{cfggen.NewSecret(cfggen.ScopeA, cfggen.KeyA, cfggen.PrefixA)}
+	w.Cfg.Users = []cfggen.User{{Name: "alice", Scopes: []string{cfggen.ScopeA}, Authenticator: &cfggen.Authenticator{Type: cfggen.AuthnBcrypt, Options: map[string]string{"hash": c07CostHashes[12]}}}}
+	cse := map[string]interface{}{"world": w, "flow": flow, "cancel_after_ms": delay, "right_password": right}
+	journal("C10", cse)
+	env, err := startRef(w.Cfg, refOpts{recover: true})
+	if err != nil {
+		t.Fatalf("HARNESS-BUG: %v", err)
+	}
+	d, err := env.dial(cfggen.AddrIn(cfggen.ScopeA, 9).IP(), 4300)
+	if err != nil {
+		t.Fatalf("%v", err)
+	}
+	key := []byte(cfggen.KeyA)
+	pw := "pw-bravo"
+	if right {
+		pw = "pw-alpha"
+	}
+	var wire []byte
+	if flow == "pap" {
+		wire = model.Frame(key, model.Header{Version: 0xc1, Type: 1, Seq: 1, Session: 77}, model.AuthenStart{Action: 1, Priv: 1, AType: 2, Service: 1, User: b("alice"), Port: b("tty0"), RemAddr: b("r"), Data: b(pw)}.Encode())
+	} else {
+		if _, _, _, err := d.send(model.Frame(key, model.Header{Version: 0xc0, Type: 1, Seq: 1, Session: 77}, model.AuthenStart{Action: 1, Priv: 1, AType: 1, Service: 1, User: b("alice"), Port: b("tty0"), RemAddr: b("r")}.Encode())); err != nil {
+			t.Fatalf("%v", err)
+		}
+		wire = model.Frame(key, model.Header{Version: 0xc0, Type: 1, Seq: 3, Session: 77}, model.AuthenContinue{UserMsg: b(pw)}.Encode())
+	}
+	d.c.Feed(wire)
+	time.Sleep(time.Duration(delay) * time.Millisecond)
+	env.srv.cancel()
+	env.srv.ln.Kick()
+	pkts, _, _, err := d.collect()
+	if err != nil {
+		t.Fatalf("%v", err)
+	}
+	for _, p := range pkts {
+		if r, ok, _ := model.DecodeAuthenReply(p.Clear(key)); ok && r.Status == stPass && !right {
+			violation(t, "C10", "authen", "C10:unjustified-pass", cse, "%s login with a wrong password, server context cancelled %d ms after the packet went in: answered PASS", flow, delay)
+		}
+	}
+	ev.Class("cancelled-while-the-password-is-checked:" + flow)
+	ev.NonTrivial("cancel-during-login", cse)
+	if e := env.stop(); e != nil {
+		t.Fatalf("%v", e)
 	}
 }
